@@ -225,6 +225,7 @@ func runC13(s *core.Sim, tier string) RunInfo {
 	}
 	if stopped {
 		s.Settle(2*time.Minute, stopT)
+		stoppedEx := w.Ex
 		if !restartAtOnce {
 			w.Ex = nil // stopped already
 		}
@@ -234,6 +235,30 @@ func runC13(s *core.Sim, tier string) RunInfo {
 			s.Violate("hang", map[string]string{"op": op, "racing": "stop"}, "%s did not return after the Exchange was stopped [%v]", op, desc)
 		} else if gerr == nil && got == nil {
 			s.Violate("zero-header-nil-error", map[string]string{"op": op, "racing": "stop"}, "%s returned a zero header and a nil error when the Exchange was stopped mid-request [%v]", op, desc)
+		}
+		if !restartAtOnce && len(s.Violations) == 0 {
+			// asked again after it was stopped, the Exchange answers with an error (or with a header a
+			// peer validly sent): no panic, no hang
+			var got3 *H
+			var gerr3 error
+			t3, fin3 := s.Do(op+"-after-stop", deadline+2*time.Second, func() {
+				ctx, cancel := context.WithTimeout(context.Background(), deadline)
+				defer cancel()
+				if byHash {
+					got3, gerr3 = stoppedEx.Get(ctx, target.Hash())
+				} else {
+					got3, gerr3 = stoppedEx.GetByHeight(ctx, target.Height())
+				}
+			})
+			switch {
+			case t3.Panic != nil:
+				s.Violate("panic", map[string]string{"op": op, "after": "stop"}, "%s on a stopped Exchange panicked: %v\n%s", op, t3.Panic, t3.Stack)
+			case !fin3:
+				s.Violate("hang", map[string]string{"op": op, "after": "stop"}, "%s on a stopped Exchange did not return [%v]", op, desc)
+			case gerr3 == nil && got3 == nil:
+				s.Violate("zero-header-nil-error", map[string]string{"op": op, "after": "stop"}, "%s on a stopped Exchange returned a zero header and a nil error [%v]", op, desc)
+			}
+			s.Probe("request-after-stop")
 		}
 		return RunInfo{Nontrivial: true, StateKey: fmt.Sprint(desc, byHash), Evals: 1}
 	}
